@@ -525,7 +525,8 @@ Fixpoint recvmsg_loop (fx : bool) (fuel : nat) (rbeh : nat -> bool -> list op) (
   end.
 
 Definition udp_recvmsg (fx : bool) (rbeh : nat -> bool -> list op) (s : st) : st * list event :=
-  recvmsg_loop fx (S (length (orv s))) rbeh s 32.
+  if recving s then recvmsg_loop fx (S (length (orv s))) rbeh s 32
+  else (s, []).            (* assert(handle->recv_cb != NULL) *)
 
 (* ------------------------------------------------------------------ *)
 (* uv__udp_io *)
